@@ -20,7 +20,7 @@ struct lbuf *ex_lbuf(void) { return NULL; }
 #ifndef ORDER
 #define ORDER 0
 #endif
-#define CLS (SL_ASCII | SL_TAB | SL_3B | SL_COMB | SL_AR1 | SL_ZWNJ | SL_4B)
+#define CLS (SL_ASCII | SL_TAB | SL_3B | SL_COMB | SL_AR1 | SL_ZWNJ | SL_4B | SL_WBELL)
 static int cls_width(const char *c, int col)
 {
 	if (c[0] == '\t')
